@@ -112,6 +112,56 @@ func streamOps() []sop {
 			sort.SliceStable(o, func(i, j int) bool { return o[i]/10 < o[j]/10 })
 			return o
 		}, false},
+		{"Sort(by distance to the receiver's last item; the comparator reads the receiver)", 0, func(r, a coll.Stream) coll.Stream {
+			if r.Len() == 0 {
+				return r.Sort(func(x, y int) bool { return x < y })
+			}
+			dist := func(v int) int {
+				d := v - r.Get(r.Len()-1) // the receiver must hold its elements while it is being sorted, too
+				if d < 0 {
+					d = -d
+				}
+				return d
+			}
+			return r.Sort(func(x, y int) bool { return dist(x) < dist(y) })
+		}, func(r, a []int) []int {
+			o := cp(r)
+			if len(o) == 0 {
+				return o
+			}
+			last := o[len(o)-1]
+			dist := func(v int) int {
+				if v < last {
+					return last - v
+				}
+				return v - last
+			}
+			sort.SliceStable(o, func(i, j int) bool { return dist(o[i]) < dist(o[j]) })
+			return o
+		}, false},
+		{"Sort(desc; the comparator panics at its 2nd call, the caller recovers) then Clone", 0, func(r, a coll.Stream) coll.Stream {
+			// a failed operation disturbs nothing either: afterwards the receiver (and everything else) holds what it held
+			calls := 0
+			var out coll.Stream
+			if p := lib.Catch(func() {
+				out = r.Sort(func(x, y int) bool {
+					calls++
+					if calls == 2 {
+						panic("comparator failure")
+					}
+					return x > y
+				})
+			}); p != "" {
+				return r.Clone()
+			}
+			return out
+		}, func(r, a []int) []int {
+			o := cp(r)
+			if len(o) < 3 { // fewer than two comparisons: the sort completes
+				sort.SliceStable(o, func(i, j int) bool { return o[i] > o[j] })
+			}
+			return o
+		}, false},
 		{"SortByIndex(desc)", 0, func(r, a coll.Stream) coll.Stream {
 			// the usual sort.Slice idiom: the comparator indexes the array being sorted, which the
 			// stream shares with the caller while SortByIndex runs
